@@ -1,5 +1,5 @@
 #!/usr/bin/env python3
-"""mutbattery — eleven one-line source mutations (one per source-driven tie and a few differential streams), each applied to a scratch
+"""mutbattery — twelve one-line source mutations (one per source-driven tie and a few differential streams), each applied to a scratch
 worktree of /repo and run through the registered quick check of a scratch copy of the COMMITTED /verif: every line must say exit 1.
 A guard against translators that were generalised into blindness.  (/repo and /verif are not touched.)"""
 import subprocess, sys, os, shutil, tempfile, json
@@ -16,6 +16,8 @@ MUTS = [
  ("C13","torcheval/metrics/window/click_through_rate.py","        self.next_inserted %= self.max_num_updates\n        self.total_updates += 1","        self.next_inserted %= self.max_num_updates - 1\n        self.total_updates += 1"),
  ("C02","torcheval/metrics/synclib.py","sorted(","list("),
  ("C01","torcheval/metrics/regression/mean_squared_error.py","self.sum_weight += metric.sum_weight.to(self.device)","self.sum_weight += 0 * metric.sum_weight.to(self.device)"),
+ # a precision-losing cast the exact-arithmetic kernel terms read as the identity: only the low-precision stream of C06 can see it
+ ("C06","torcheval/metrics/functional/classification/binned_precision_recall_curve.py","    labels = input >= threshold[:, None, None]","    labels = input >= threshold.to(input.dtype)[:, None, None]"),
 ]
 def run(i):
     prop,f,old,new = MUTS[i]
@@ -34,5 +36,6 @@ def run(i):
         return f"{prop} {os.path.basename(f)} [{old[:40]!r}]: exit {r.returncode}, {len(v)} VIOLATION, {'no-failing-input-found' if any('no-failing' in l for l in v) else 'failing input'}"
     finally:
         subprocess.run(["git","-C","/repo","worktree","remove","--force",wt]); shutil.rmtree(base,ignore_errors=True)
+ONLY = [int(a) for a in sys.argv[1:]] or list(range(len(MUTS)))      # tools/mutbattery.py [index …]
 with ThreadPoolExecutor(4) as ex:
-    for r in ex.map(run, range(len(MUTS))): print(r, flush=True)
+    for r in ex.map(run, ONLY): print(r, flush=True)
